@@ -17,8 +17,13 @@ type KV struct {
 }
 
 type Store struct {
-	Items  []KV // sorted by K, no duplicates
+	Items  []KV // sorted by K, no duplicates (insertion order when Unordered)
 	Writes int  // number of mutating calls (Set/Delete), for "untouched" assertions
+	// Unordered keeps Items in insertion order and finds keys by equality only; the order is
+	// established when (and only for the part of the key space that) an iterator asks for it. The
+	// observable behaviour is the same; it avoids ordering case splits between keys that are
+	// symbolic hashes (the IAVL node database), which nothing ever iterates over.
+	Unordered bool
 }
 
 func New() *Store { return &Store{} }
@@ -34,6 +39,14 @@ func clone(b []byte) []byte {
 
 // find returns the position of key, or where it would be inserted.
 func (s *Store) find(key []byte) (int, bool) {
+	if s.Unordered {
+		for i := range s.Items {
+			if bytes.Equal(s.Items[i].K, key) {
+				return i, true
+			}
+		}
+		return len(s.Items), false
+	}
 	for i := range s.Items {
 		c := bytes.Compare(s.Items[i].K, key)
 		if c == 0 {
@@ -101,6 +114,13 @@ func (s *Store) Range(start, end []byte, reverse bool) []KV {
 			out = append(out, KV{clone(it.K), clone(it.V)})
 		}
 	}
+	if s.Unordered { // insertion sort of the selected pairs
+		for i := 1; i < len(out); i++ {
+			for j := i; j > 0 && bytes.Compare(out[j-1].K, out[j].K) > 0; j-- {
+				out[j-1], out[j] = out[j], out[j-1]
+			}
+		}
+	}
 	if reverse {
 		for i, j := 0, len(out)-1; i < j; i, j = i+1, j-1 {
 			out[i], out[j] = out[j], out[i]
@@ -132,6 +152,9 @@ func (s *Store) ReverseIterator(start, end []byte) (types.Iterator, error) {
 type DB struct{ *Store }
 
 func NewDB() DB { return DB{New()} }
+
+// NewUnorderedDB is a DB over an Unordered store (see Store.Unordered).
+func NewUnorderedDB() DB { return DB{&Store{Unordered: true}} }
 
 func (d DB) SetSync(k, v []byte) error { d.SetRaw(k, v); return nil }
 func (d DB) DeleteSync(k []byte) error { d.DeleteRaw(k); return nil }
